@@ -14,23 +14,7 @@
 (***************************************************************************)
 EXTENDS HGEngine
 
-\* ---- Phase 1 ---------------------------------------------------------------
-Preds(E, S) == {e[1] : e \in {e \in E : e[2] \in S}}
-
-RECURSIVE NeededFor(_, _, _, _)
-NeededFor(pr, E, act, S) ==      \* backward closure of S inside act, with pessimistic gate expansion
-  LET back == Preds(E, S) \cap act
-      gates == {i \in S : IsGate(pr.nodes[i])}
-      tgts == {IdxOf(pr, t) : t \in UNION {Targets(pr, pr.nodes[g]) : g \in gates}} \cap act
-      down == ReachFrom({e \in E : e[1] \in act /\ e[2] \in act}, tgts) \cap act
-      nxt == S \cup back \cup tgts \cup down
-  IN IF nxt = S THEN S ELSE NeededFor(pr, E, act, nxt)
-
-ActiveFor(pr, selected) ==
-  LET fwd == ActiveSet(pr)
-  IN IF selected = Unset \/ selected = <<"**">> THEN fwd
-     ELSE LET prods == {i \in fwd : Names(pr.nodes[i].outputs) \cap Names(selected) # {}}
-          IN IF prods = {} THEN {} ELSE NeededFor(pr, EdgeSet(pr), fwd, prods)
+\* ---- Phase 1 (scope narrowing) lives in HGEngine.tla: Preds, NeededFor, ActiveFor, SpecActive
 
 \* ---- Phase 2 ---------------------------------------------------------------
 \* data edges among active nodes (the first producer of a name feeds its consumers)
